@@ -33,7 +33,8 @@ theorem NameOk.cases {b : Bytes} (h : NameOk b) :
 theorem checksOk_eq (H : Hashes) (c : Bytes) (x : Cks) : StoreSpec.checksOk H c x = FsStore.checksOk H c x := rfl
 
 /-- `put_object` may be compared with the store: names agree, the side-file names fit [else
-    fs:long-key-internal-error], the key is canonical [fs:key-normalised, fs:directory-key] and, when the bucket exists,
+    fs:long-key-internal-error: since 4f3e079 such a key is refused with `KeyTooLongError` before anything is written — the
+    store accepts it], the key is canonical [fs:key-normalised, fs:directory-key] and, when the bucket exists,
     its path is free (prefix-freedom; fs:leftover-directory) -/
 def PutOk (s : State) (b k : Bytes) : Prop :=
   NameOk b ∧ CanonKey k ∧ sideTooLong b k false = false ∧
@@ -181,8 +182,32 @@ theorem put_refines (H : Hashes) (dl : Nat) {s : State} (hi : Inv s) {b k c : By
           rw [hstep, hspec]
           exact ⟨rfl, put_core hi ht hp hcanon hbucket.2 hds hnd rfl rfl rfl rfl rfl rfl rfl⟩
         · have hck' : FsStore.checksOk H c cks = false := by simpa using hck
-          simp [step, StoreSpec.step, hslash, objPath, hbd, hkp, hbo, hko, habs, checksOk_eq, hck', hh, hi]
+          simp [step, StoreSpec.step, hslash, objPath, hbd, hkp, hbo, hko, habs, checksOk_eq, hck', hh, hshort, hi]
   · -- a name both refuse
     simp [step, StoreSpec.step, hbd, hbo, hi]
+
+/-- 4f3e079: `put_object` of a plain key whose side files cannot be named (`sideTooLong`) changes nothing — whatever the state,
+    the bucket, the body — and answers an error; in an existing bucket, for a key the backend maps into it, the error is
+    `KeyTooLongError` (before the repair the object file was written, then the request failed with `InternalError`) -/
+theorem put_long_key (H : Hashes) (dl : Nat) (s : State) {b k c : Bytes} {md : Option Meta} {cks : Cks}
+    {clen : Option Int} (hslash : endsWithSlash k = false) (hlong : sideTooLong b k false = true) :
+    (step H dl s (.putObject b k c md cks clen)).1 = s ∧
+    (∃ e, (step H dl s (.putObject b k c md cks clen)).2 = .err e) ∧
+    (∀ bd p, bucketDir b = some bd → alHas bd s.buckets = true → keyPath k = some p →
+      (step H dl s (.putObject b k c md cks clen)).2 = .err .KeyTooLongError) := by
+  cases hbd : bucketDir b with
+  | none => simp [step, hbd]
+  | some bd =>
+    by_cases hh : alHas bd s.buckets = true
+    · cases hkp : keyPath k with
+      | none => simp [step, hbd, hh, hslash, objPath, hkp]
+      | some p => simp [step, hbd, hh, hslash, objPath, hkp, hlong]
+    · have hh' : alHas bd s.buckets = false := by simpa using hh
+      refine ⟨by simp [step, hbd, hh'], by simp [step, hbd, hh'], ?_⟩
+      intro bd' p hb' hhas
+      simp only [Option.some.injEq] at hb'
+      subst hb'
+      rw [hh'] at hhas
+      exact absurd hhas (by simp)
 
 end S3V.FsStore
